@@ -420,7 +420,7 @@ Definition ev_ok (c : cache) (e : cache_ev) : Prop :=
   | EvPodAdd t =>
     nonneg (t_req t) /\ t_status t <> Pipelined /\ t_status t <> Binding /\
     forall i n, t_node t = Some i -> c_nodes c !! i = Some n -> n_has_node n = true -> fits eps (t_req t) (amt (n_idle n))
-  | EvUpdateUnbound _ => True
+  | EvUpdateUnbound _ _ => True
   | EvBoundArrives tid =>
     forall st i, c_heap c !! tid = Some st -> t_status st = Binding -> t_node st = Some i ->
       t_id st = tid /\
@@ -480,15 +480,15 @@ Qed.
 (* a bind in flight keeps its reservation: an update whose object has no nodeName yet is ignored
    for a pod the cache holds in an allocated status (updatePod's guard; seeded mutant C02-r3-1
    restricts it to resyncs) *)
-Theorem update_unbound_keeps_reservation c tid st :
+Theorem update_unbound_keeps_reservation c tid deleting st :
   c_heap c !! tid = Some st -> allocated_status (t_status st) = true ->
-  cache_event eps c (EvUpdateUnbound tid) = c.
+  cache_event eps c (EvUpdateUnbound tid deleting) = c.
 Proof. intros Hl Ha. simpl. rewrite Hl, Ha. reflexivity. Qed.
 
 (* every cache event keeps the invariant *)
 Theorem cache_event_keeps c e : cinv c -> ev_ok c e -> cinv (cache_event eps c e).
 Proof.
-  intros [Hheap Hall] Hev. destruct e as [nid alloc|tid|tid|t|tid|tid|nid|tid nid]; simpl.
+  intros [Hheap Hall] Hev. destruct e as [nid alloc|tid|tid|t|tid deleting|tid|nid|tid nid]; simpl.
   - (* node add / update: the ledger is recomputed *)
     destruct Hev as [Hs Hsum]. split; [exact Hheap|]. simpl. unfold node_event. apply nodes_all_insert; [exact Hall|].
     destruct (c_nodes c !! nid) as [n|] eqn:E.
@@ -533,7 +533,7 @@ Proof.
     destruct (c_heap c !! tid) as [st|] eqn:Eh; [|split; assumption].
     destruct (allocated_status (t_status st)); [split; assumption|]. destruct (Hheap _ _ Eh) as [Hnn Hnp].
     split; simpl.
-    + intros i u Hl. apply lookup_insert_Some in Hl as [[_ <-]|[_ Hl]]; [split; [exact Hnn|simpl; discriminate]|apply (Hheap _ _ Hl)].
+    + intros i u Hl. apply lookup_insert_Some in Hl as [[_ <-]|[_ Hl]]; [split; [exact Hnn|destruct deleting; simpl; discriminate]|apply (Hheap _ _ Hl)].
     + apply remove_from_node_ok. exact Hall.
   - (* the bound pod arrives *)
     destruct (c_heap c !! tid) as [st|] eqn:Eh; [|split; assumption].
@@ -655,7 +655,7 @@ Definition agent_ev_ok (tasks : positive -> option task) (ns : gmap positive nod
       forall n, ns !! i = Some n -> exists cp, n_tasks n !! t_id st = Some cp /\ t_req cp = t_req st
   | EvDelete _ => True
   | EvPodAdd t => ev_ok (mkCache ∅ ∅ ns) (EvPodAdd t)
-  | EvUpdateUnbound _ => True
+  | EvUpdateUnbound _ _ => True
   | EvBoundArrives tid =>
     forall st i, tasks tid = Some st -> find_binding ns tid = Some i ->
       nonneg (t_req st) /\ forall n, ns !! i = Some n -> is_Some (n_tasks n !! t_id st)
@@ -675,7 +675,7 @@ Proof.
     destruct (node_add eps n (set_status t Binding)) as [[n' t']|er] eqn:Ea; [|exact Hall]. simpl.
     apply nodes_all_insert; [exact Hall|].
     apply (bnode_add n (set_status t Binding) n' t'); [apply (Hall _ _ E)|exact Hok|simpl; discriminate|left; reflexivity|exact Ea].
-  - destruct e as [nid alloc|tid|tid|t|tid|tid|nid|tid nid]; simpl in *.
+  - destruct e as [nid alloc|tid|tid|t|tid deleting|tid|nid|tid nid]; simpl in *.
     + assert (Hc : cinv (mkCache ∅ ∅ ns)) by (split; [intros i t Hl; simpl in Hl; rewrite lookup_empty in Hl; discriminate|exact Hall]).
       destruct (cache_event_keeps _ (EvNode nid alloc) Hc Hok) as [_ H]. exact H.
     + destruct (tasks tid) as [st|] eqn:Et; [|exact Hall].
